@@ -269,7 +269,12 @@ def work(task):
     for k in range(lo, hi):
         seen = set()
         for c in cases_for(P, k, thorough):
-            mism, nexec = R.run_case(c)
+            try:
+                mism, nexec = R.run_case(c)
+            except Exception as e:  # noqa: BLE001 - the replay itself must never die on a misbehaving library
+                import traceback
+                where = traceback.extract_tb(e.__traceback__)[-1]
+                mism, nexec = [("replay-crashed:" + type(e).__name__, f"{type(e).__name__}: {e} at {where.filename.rsplit('/', 1)[-1]}:{where.lineno}")], 0
             tag = c["kind"] + ("-mapped" if c.get("map") else "") + ("" if c["runs"] else "-attributes-only")
             counts[tag] = counts.get(tag, 0) + 1
             counts["executions"] = counts.get("executions", 0) + nexec
@@ -288,7 +293,10 @@ def shrink(case, klass):
     import copy
 
     def fires(c):
-        return [s for k, s in R.run_case(c)[0] if k == klass]
+        try:
+            return [s for k, s in R.run_case(c)[0] if k == klass]
+        except Exception as e:  # noqa: BLE001
+            return [f"{type(e).__name__}: {e}"] if klass.startswith("replay-crashed:") else []
 
     best = copy.deepcopy(case)
     P, Q = best["P"], best["Q"]
@@ -337,7 +345,8 @@ def shrink(case, klass):
             if fires(c):
                 best = c
                 break
-    return best, fires(best)[0]
+    f = fires(best)
+    return best, (f[0] if f else "(the shrunk case does not fire again: the witness depends on what ran before it)")
 
 
 def replay_all(ctx, hists, thorough, procs):
